@@ -1,4 +1,5 @@
 import Bluge.Agg
+import Bluge.C16.Code
 import Bluge.Numeric
 import Std.Data.HashMap
 /-! Model driver for C16 (stream `agg`, see go/harness/c16).
